@@ -76,6 +76,7 @@ class Runner:
         self.close_end_emitted = False
         self.known_msgs = set()
         self.pending_lines = []
+        self.sync_outcomes = {}
         self.torn_down = False
         orig_send = self.session.send
 
@@ -246,6 +247,38 @@ class Runner:
                 self.lines.append('ss op cSend ' + hexb(self.sent[-1].encode()))
             else:
                 self.lines.append('ss op cSend b')
+        elif k == 'sreq':
+            # a SYNCHRONOUS request whose caller gives up after a short timeout (the request stays unanswered for now)
+            n = len(self.rpcs) + 1
+            before = len(self.sent)
+            from ncclient.operations.rpc import GenericRPC
+            from ncclient.operations.errors import TimeoutExpiredError
+            box = {}
+            try:
+                r = GenericRPC(s, self.dh, async_mode=False, timeout=0.05, raise_mode=0)
+                self.rpcs.append(r)
+
+                def call():
+                    try:
+                        r.request(new_ele('sq%d' % n))
+                        box['out'] = 'returned'
+                    except TimeoutExpiredError:
+                        box['out'] = 'timeout'
+                    except Exception as e:
+                        box['out'] = 'exc:' + type(e).__name__
+                th = threading.Thread(target=call, daemon=True)
+                th.start()
+                th.join(5)
+                self.req_status.append('sent' if len(self.sent) > before else 'refused')
+                self.sync_outcomes[n] = box.get('out', 'hung')
+            except Exception as e:
+                self.rpcs.append(None)
+                self.req_status.append('refused')
+            self.lines.append('ss op cNew %d' % n)
+            if len(self.sent) > before:
+                self.lines.append('ss op cSend ' + hexb(self.sent[-1].encode()))
+            else:
+                self.lines.append('ss op cSend b')
         elif k == 'trap':
             # a pending request object owned by the harness: when the worker delivers an error to it, it
             # creates (registers + sends) another request, i.e. a client thread doing so at that very moment
@@ -313,7 +346,9 @@ class Runner:
             else:
                 raise RuntimeError('worker is not parked: %r' % (self.ctl.parked,))
         elif k == 'take':
-            n = s.take_notification(False, None)
+            # a blocking take (short timeout) once the worker is gone, a non-blocking one otherwise: both must hand out what is queued
+            stopped = bool(self.ctl.parked) and self.ctl.parked[0] == 'stopped'
+            n = s.take_notification(True, 0.02) if stopped else s.take_notification(False, None)
             if n is not None:
                 self.taken.append(hexs(n.notification_xml))
             self.lines.append('ss op cTake')
